@@ -50,7 +50,25 @@ type ConcWL struct {
 	ForceMerges int             `json:"force_merges,omitempty"`
 }
 
+// genConcTiny is the fixed small scenario of the bounded enumeration (tier "enum"): two writers with two batches
+// each, one observer, one held reader, one forced merge, scorch on disk with in-memory merges enabled.
+func genConcTiny() (ConcCfg, ConcWL) {
+	cfg := ConcCfg{NDocs: 2, AnalysisQ: 1, Sched: sched.Config{Policy: sched.PolUniform}}
+	cfg.Index = model.IndexCfg{Engine: "scorch", NapMS: 0, Workers: 1, MinSegsMem: 2, MaxSegmentsPerTier: 2, SegmentsPerMergeTask: 2, FloorSegmentSize: 1}
+	wl := ConcWL{ForceMerges: 1}
+	wl.Writers = [][]model.Batch{
+		{{Docs: []model.DocOp{{ID: model.WriterID(0, 0), Ver: 1}, {ID: model.WriterID(0, 1), Ver: 2}}}, {Docs: []model.DocOp{{ID: model.WriterID(0, 0), Del: true}, {ID: model.WriterID(0, 1), Ver: 3}}}},
+		{{Docs: []model.DocOp{{ID: model.WriterID(1, 0), Ver: 1}}}, {Docs: []model.DocOp{{ID: model.WriterID(1, 0), Ver: 2}, {ID: model.WriterID(1, 1), Ver: 3}}}},
+	}
+	wl.Observers = [][]ObsOp{{{K: "search"}, {K: "count"}, {K: "doc", W: 0, D: 0}, {K: "search"}, {K: "marker", W: 1}}}
+	wl.Held = []HeldOp{{Wait: 2, Queries: 2, Gap: 3}}
+	return cfg, wl
+}
+
 func genConc(c *core.Ctx) (ConcCfg, ConcWL) {
+	if c.Spec.Tier == "enum" {
+		return genConcTiny()
+	}
 	g := c.Gen
 	cfg := ConcCfg{NDocs: 2 + g.Intn(3), AnalysisQ: 1 + g.Intn(3)}
 	switch g.Intn(10) {
